@@ -39,6 +39,31 @@ def kronMult {β : Type} (addβ : β → β → β) (act : C α → β → β) (
   Fin.foldr n (fun s y => stage addβ act (us s) (2 ^ (n - 1 - s.val)) y) x
   -- NOTE: `Fin.foldr n f x = f 0 (f 1 (… (f (n-1) x)))`: the innermost (first applied) stage is s = n-1.
 
+
+/-! ### `_kron_mult` with the code's loops (flat list in place of the tensor's index axis) -/
+
+section loop
+variable {β : Type} [Inhabited β]
+
+/-- `y[:, slc] = cplx.matmul(m, y[:, slc])` for ONE slice `slc = slice(i0, i0 + 2r, r)`, i.e. the two positions
+`i0` and `i0 + r`: both old values are read, then both positions are overwritten. -/
+def updPair (addβ : β → β → β) (act : C α → β → β) (m : M2 α) (i0 r : Nat) (y : List β) : List β :=
+  let t0 := y.getD i0 default
+  let t1 := y.getD (i0 + r) default
+  (y.set i0 (addβ (act (m false false) t0) (act (m false true) t1))).set (i0 + r)
+    (addβ (act (m true false) t0) (act (m true true) t1))
+
+/-- one `s`-iteration of `_kron_mult`: `for k in range(l): for i in range(r): slc = slice(k*n_s*r + i, (k+1)*n_s*r + i, r)`
+with `n_s = 2` -/
+def stageLoop (addβ : β → β → β) (act : C α → β → β) (m : M2 α) (r l : Nat) (y : List β) : List β :=
+  (List.range l).foldl (fun y k => (List.range r).foldl (fun y i => updPair addβ act m (k * (2 * r) + i) r y) y) y
+
+/-- `_kron_mult(matrices, x)`: `l, r = prod(n), 1; for s in reversed(range(n)): l //= 2; (stage); r *= 2` -/
+def kronMultLoop (addβ : β → β → β) (act : C α → β → β) (n : Nat) (us : Fin n → M2 α) (x : List β) : List β :=
+  Fin.foldr n (fun s y => stageLoop addβ act (us s) (2 ^ (n - 1 - s.val)) (2 ^ s.val) y) x
+
+end loop
+
 /-- `rotate_psi`: `_kron_mult(us, psi)` on a complex vector of length `2^n`. -/
 def rotatePsi (n : Nat) (us : Fin n → M2 α) (psi : Nat → C α) : Nat → C α :=
   kronMult C.add C.mul n us psi
@@ -55,6 +80,20 @@ def actRow (c : C α) (a : Row α) : Row α := fun j => C.mul c (a j)
 `cplx.conjugate` = conjugate transpose of a matrix. Entry `(i, j)` of the result. -/
 def rotateRho (n : Nat) (us : Fin n → M2 α) (rho : Nat → Nat → C α) : Nat → Nat → C α :=
   kronMult addRow actRow n us (fun i j => C.conj (kronMult addRow actRow n us rho j i))
+
+
+instance : Inhabited (C α) := ⟨C.zero⟩
+
+/-- `rotate_psi` with the code's loops: `_kron_mult(us, psi)` on the flat complex vector -/
+def rotatePsiL (n : Nat) (us : Fin n → M2 α) (psi : List (C α)) : List (C α) :=
+  kronMultLoop C.add C.mul n us psi
+
+instance : Inhabited (Row α) := ⟨fun _ => C.zero⟩
+
+/-- `rotate_rho` with the code's loops; the matrix is a list of rows (the `...` axis carried along by `_kron_mult`) -/
+def rotateRhoL (n : Nat) (us : Fin n → M2 α) (rho : List (Row α)) : List (Row α) :=
+  let r1 := kronMultLoop addRow actRow n us rho
+  kronMultLoop addRow actRow n us ((List.range (2 ^ n)).map (fun i => fun j => C.conj ((r1.getD j default) i)))
 
 /-- coefficient `Π_{s ∈ rot} U_s[σ_s, σ'_s]` of `_rotate_basis_state` (`Ut`), for an expanded state `σ'`. -/
 def rotCoeff (n : Nat) (us : Fin n → M2 α) (rot : Fin n → Bool) (σ σ' : Fin n → Bool) : C α :=
